@@ -60,6 +60,14 @@ def extract_constants(c):
         K["c2fixed"] = 0
         c.broken.append("proof obligation: reb_whfast_apply_corrector2 has neither of the two modelled shapes")
     c.cov["corrector2_source_variant"] = "repaired (Uinv, reversed order)" if K["c2fixed"] else "as found (sign flip of a and b: F18)"
+    # does reb_simulation_integrate_raw synchronise before it changes the sign of dt?
+    rsrc = open(os.path.join(common.REPO, "src", "rebound.c")).read()
+    m2 = re.search(r"if \(thread_info->tmax != r->t\)\{(.*?)\n    \}", rsrc, flags=re.S)
+    blk = m2.group(1) if m2 else ""
+    if "copysign" not in blk:
+        c.broken.append("proof obligation: the dt sign assignment of reb_simulation_integrate_raw was not found")
+    K["syncFirst"] = int("reb_simulation_synchronize" in blk and blk.index("reb_simulation_synchronize") < blk.index("copysign")) if "copysign" in blk else 0
+    c.cov["integrate_entry_variant"] = "synchronises before flipping dt" if K["syncFirst"] else "as found (flips the sign of dt without synchronising: C09-integrate-reverse)"
     K["SC"] = table("reb_saba_c", True)
     K["SD"] = table("reb_saba_d", True)
     K["SCC"] = table("reb_saba_cc", False)
@@ -148,6 +156,8 @@ class World:
         lib.reb_integrator_whfast_init.argtypes = [ctypes.c_void_p]
         lib.reb_integrator_whfast_init.restype = ctypes.c_int
         lib.reb_simulation_energy.restype = D
+        lib.reb_simulation_integrate.argtypes = [ctypes.c_void_p, D]
+        lib.reb_simulation_integrate.restype = ctypes.c_int
         lib.reb_integrator_mercurius_calculate_dcrit_for_particle.argtypes = [ctypes.c_void_p, ctypes.c_uint]
         lib.reb_integrator_mercurius_calculate_dcrit_for_particle.restype = D
         self.libc = ctypes.CDLL(None)
@@ -175,7 +185,7 @@ class World:
         return [ctypes.string_at(base + i * self.psz, nbytes) for i in range(n)]
 
     def snap(self, s, which="whfast"):
-        d = {"particles": self.pbytes(s._particles, s.N), "t": d2h(s.t)}
+        d = {"particles": self.pbytes(s._particles, s.N), "t": d2h(s.t), "dt": d2h(s.dt)}
         if which in ("whfast", "saba"):
             pj = self.pbytes(s.ri_whfast._p_jh, s.N) if s.ri_whfast._N_allocated == s.N else None
             d["p_jh"] = pj
@@ -193,11 +203,26 @@ class World:
         lib, K = self.lib, self.K
         r = ctypes.byref(s)
         N = s.N
-        dt = s.dt
         nact = N if (s.N_active == -1 or s.testparticle_type == 1) else s.N_active
         for p in prims:
             name, _, arg = p.partition("=")
-            if name == "init":
+            dt = s.dt
+            if name == "stepEnd":
+                st["dld"] = s.dt
+                s.dt_last_done = s.dt
+            elif name == "flipDt":
+                s.dt = -s.dt
+            elif name == "intBegin":
+                st["last_full"] = s.dt
+                st["dld"] = 0.0
+                s.dt_last_done = 0.0
+            elif name == "setDtLast":
+                if st["dld"] != 0.:
+                    st["last_full"] = st["dld"]
+                s.dt = st["tmax"] - s.t
+            elif name == "restoreDt":
+                s.dt = st["last_full"]
+            elif name == "init":
                 had = s.ri_whfast._N_allocated == N
                 if lib.reb_integrator_whfast_init(r) != 0:
                     raise Infra("replay: init failed on a configuration the model accepts")
@@ -361,6 +386,82 @@ def gen_ops(rng, n, allow_user=True):
     return ops
 
 
+class Clock:
+    """emulation of the time arithmetic of reb_simulation_step / reb_check_exit / integrate_raw
+    (decides how many full and shortened steps an integrate call makes)"""
+
+    def __init__(self, dt, halves):
+        self.t, self.dt, self.halves = 0.0, dt, halves
+
+    def step(self):
+        if self.halves:
+            self.t = self.t + self.dt / 2.
+            self.t = self.t + self.dt / 2.
+        else:
+            self.t = self.t + self.dt
+
+    def integrate(self, tmax, exact):
+        reverse = 0
+        if tmax != self.t:
+            nd = math.copysign(self.dt, 1.0 if tmax > self.t else -1.0)
+            reverse = int(nd != self.dt)
+            self.dt = nd
+        last_full, dld, last = self.dt, 0.0, False
+        n = k = 0
+        for _ in range(100000):
+            sg = math.copysign(1., self.dt)
+            if exact:
+                if (self.t + self.dt) * sg >= tmax * sg:
+                    if self.t == tmax:
+                        break
+                    if last:
+                        ts = 1e-12 * abs(tmax)
+                        if ts < 1e-200:
+                            ts = 1e-12
+                        if abs(self.t - tmax) < ts:
+                            break
+                    else:
+                        last = True
+                        if dld != 0.:
+                            last_full = dld
+                    self.dt = tmax - self.t
+                    k += 1
+                elif last:
+                    raise Infra("clock emulation: unexpected return to RUNNING")
+            elif self.t * sg >= tmax * sg:
+                break
+            self.step()
+            dld = self.dt
+            if not last:
+                n += 1
+        if exact:
+            self.dt = last_full
+        return n, k, reverse
+
+
+def add_integrates(rng, ops, clock, syncFirst, pure=False):
+    """replace some ops by integrate calls; returns (driver tokens, python ops)"""
+    toks, pyops = [], []
+    for op in ops:
+        if op == "s" and rng.chance(0.35):
+            kind = rng.choice(["lt", "lt", "eq", "gt", "gt", "rev", "zero"])
+            adt = abs(clock.dt)
+            delta = {"lt": rng.uniform(0.05, 0.95) * adt, "eq": adt, "gt": rng.uniform(1.05, 4.5) * adt,
+                     "rev": -rng.uniform(0.05, 3.5) * adt, "zero": 0.0}[kind]
+            fwd = math.copysign(1., clock.dt)
+            tmax = clock.t + fwd * delta
+            exact = int(rng.chance(0.6))
+            n, k, rev = clock.integrate(tmax, exact)
+            toks.append("i:%d:%d:%d:%d:%d" % (n, k, exact, rev, syncFirst))
+            pyops.append(("i", tmax, exact, kind))
+        else:
+            if op == "s":
+                clock.step()
+            toks.append(op)
+            pyops.append((op,))
+    return toks, pyops
+
+
 def whfast_setup(o):
     def f(s):
         w = s.ri_whfast
@@ -391,10 +492,11 @@ def replay(c, W, exe, ncases, family):
         ops = gen_ops(rng, rng.randint(3, 9))
         if "s" not in ops:
             ops.append("s")
+        toks, ops = add_integrates(rng, ops, Clock(system["dt"], family == "whfast"), W.K["syncFirst"])
         if family == "whfast":
             o = whfast_options(rng)
             lines.append("W %d %d %d %d %d %d %d 1 0 0 %s" % (o["coord"], o["kernel"], o["corrector"], o["corrector2"],
-                                                              o["safe"], o["keep"], W.K["c2fixed"], " ".join(ops)))
+                                                              o["safe"], o["keep"], W.K["c2fixed"], " ".join(toks)))
             setup = whfast_setup(o)
             key = (o["coord"], o["kernel"], o["corrector"], o["corrector2"], o["safe"], o["keep"])
         else:
@@ -402,10 +504,10 @@ def replay(c, W, exe, ncases, family):
             o = dict(type=rng.choice(sorted(SABA_ROWS)), safe=int(mode == "safe"), keep=int(mode == "keep"))
             if rng.chance(0.7):
                 system["N_active"], system["testparticle_type"] = -1, 0
-            lines.append("S %d %d %d 1 0 0 %s" % (o["type"], o["safe"], o["keep"], " ".join(ops)))
+            lines.append("S %d %d %d 1 0 0 %s" % (o["type"], o["safe"], o["keep"], " ".join(toks)))
             setup = saba_setup(o)
             key = (o["type"], o["safe"], o["keep"])
-        cases.append((o, system, ops, setup, key))
+        cases.append((o, system, ops, setup, key, toks))
     out = run_driver(exe, lines)
     if len(out) != len(lines):
         c.corr_break("drv_c09 returned %d lines for %d cases" % (len(out), len(lines)))
@@ -413,7 +515,8 @@ def replay(c, W, exe, ncases, family):
     nprims = 0
     hist = {}
     predicted_crashes = [0]
-    for (o, system, ops, setup, key), line, model in zip(cases, lines, out):
+    nint = [0]
+    for (o, system, ops, setup, key, toks), line, model in zip(cases, lines, out):
         A = W.sim(system, family, setup)
         B = W.sim(system, family, setup)
         fl_of = (lambda s: s.ri_whfast.is_synchronized) if family == "whfast" else (lambda s: s.ri_saba.is_synchronized)
@@ -429,12 +532,17 @@ def replay(c, W, exe, ncases, family):
             c.corr_break("model output has %d segments for %d ops" % (len(segs), len(ops)), {"line": line, "model": model[:300]})
             return
         prng = SplitMix(c.seed * 7919 + len(line))
-        for k, (op, seg) in enumerate(zip(ops, segs)):
+        for k, (opt, seg) in enumerate(zip(ops, segs)):
+            op = opt[0]
             prims, _, fl = seg.partition("@")
             prims = [p for p in prims.split(",") if p]
             mflags = [int(x) for x in fl.split()]
             # real code on A
-            if op == "s":
+            if op == "i":
+                A.exact_finish_time = opt[2]
+                st["tmax"] = opt[1]
+                W.lib.reb_simulation_integrate(ctypes.byref(A), opt[1])
+            elif op == "s":
                 W.lib.reb_simulation_step(ctypes.byref(A))
             elif op == "y":
                 W.lib.reb_simulation_synchronize(ctypes.byref(A))
@@ -462,15 +570,17 @@ def replay(c, W, exe, ncases, family):
             if a != b or aflags != mflags:
                 what = "flags" if aflags != mflags else [k2 for k2 in a if a[k2] != b[k2]][0]
                 c.corr_break("%s schedule replay differs from reb_simulation_%s in %s (op %d of '%s', options %s)"
-                             % (family, "step" if op == "s" else "synchronize", what, k, " ".join(ops), o),
+                             % (family, {"s": "step", "i": "integrate"}.get(op, "synchronize"), what, k, " ".join(toks), o),
                              {"driver_line": line, "op_index": k, "model_prims": prims, "model_flags": mflags,
                               "real_flags": aflags, "system": system, "options": o})
                 return
-            c.count(("replay", family) + key + (op,), nontrivial=(op in "sy"))
+            c.count(("replay", family) + key + ((op, opt[3], opt[2]) if op == "i" else (op,)), nontrivial=(op in "syi"))
+            if op == "i":
+                nint[0] += 1
         hk = " ".join(str(x) for x in key[:2])
         hist[hk] = hist.get(hk, 0) + 1
     c.cov["replay_" + family] = {"cases": ncases, "primitive_calls_executed": nprims, "histogram": hist,
-                                 "sequences_cut_at_a_predicted_crash": predicted_crashes[0]}
+                                 "sequences_cut_at_a_predicted_crash": predicted_crashes[0], "integrate_calls": nint[0]}
     c.sample({"replay_line": lines[0], "model": out[0][:300]})
 
 
